@@ -209,4 +209,9 @@ def run(ctx):
     R.floor("state_tables", len(state_tables), 3)
     for dm in ("reorg", "clear_caches", "commit_changes"):
         T.clause_tables(R, F, dm, only_fields=state_tables)
+    # "no transaction a user can submit can create or destroy tokens": the public simulation end points execute arbitrary calls
+    # with any sender (the indexer address included); nothing they do may reach the database (no commit capability, no store
+    # into a state container) - otherwise eth_callMany(from = indexer, mint(..)) mints
+    import c10
+    c10.rules(R, F, CG, only={"eth_call", "eth_callMany", "eth_estimateGas", "eth_estimateGasMany", "brc20_balance"})
     return R
